@@ -738,27 +738,83 @@ def _arith(e):
         return _arith(e["e"])
     if k == "bin" and "callee" not in e:
         return _arith(e["l"]) and _arith(e["r"])
+    if k == "index" and "callee" not in e and e.get("ty") in INTLIKE:
+        return _place(e["e"]) is not None and _arith(e["i"])
     return False
 
 
+def _place(e):
+    """(root local id, field path) of a place expression — the path stops at the first index; None if not a place over a local."""
+    e = hir.simp(e)
+    path = []
+    while isinstance(e, dict):
+        k = e.get("k")
+        if k == "field":
+            path.append(e["name"])
+            e = hir.simp(e["e"])
+        elif k == "index":
+            path = []
+            e = hir.simp(e["e"])
+        elif k == "un" and e.get("op") == "Deref" and "callee" not in e:
+            e = hir.simp(e["e"])
+        elif k == "local":
+            return (e.get("id"), tuple(reversed(path)))
+        else:
+            return None
+    return None
+
+
 def _roots(e):
-    return {x.get("id") for x in all_nodes(e) if x.get("k") == "local"}
+    """The places (root local id, field path) an expression mentions: `self.len` -> (self, ('len',)); a bare local -> (id, ())."""
+    out = set()
+
+    def go(n):
+        if isinstance(n, list):
+            for x in n:
+                go(x)
+            return
+        if not isinstance(n, dict):
+            return
+        if n.get("k") in ("field", "local"):
+            p_ = _place(n)
+            if p_ is not None:
+                out.add(p_)
+                return
+        for v in n.values():
+            if isinstance(v, (dict, list)):
+                go(v)
+    go(e)
+    return out
+
+
+def _overlap(ws, rs):
+    """Does a written place overlap a read one (same root, one field path a prefix of the other)?"""
+    for (i, p_) in ws:
+        for (j, q) in rs:
+            if i == j and (p_[:len(q)] == q or q[:len(p_)] == p_):
+                return True
+    return False
 
 
 def _writes(s):
-    """Root locals that statement `s` may write through (assignments, &mut borrows, calls receiving a &mut local)."""
+    """Places that statement `s` may write through (assignments, &mut borrows, calls receiving a &mut local or a &mut receiver)."""
     w = set()
     for x in all_nodes(s):
         k = x.get("k")
         if k in ("assign", "assignop"):
-            w |= _roots(x["l"])
+            p_ = _place(x["l"])
+            w |= {p_} if p_ is not None else {(i, ()) for (i, _) in _roots(x["l"])}
         elif k == "ref" and x.get("mut"):
-            w |= _roots(x["e"])
+            p_ = _place(x["e"])
+            w |= {p_} if p_ is not None else {(i, ()) for (i, _) in _roots(x["e"])}
         elif k == "call" and not x.get("ctor"):
             for a in x.get("args", []):
                 a0 = hir.simp(a)
                 if isinstance(a0, dict) and a0.get("k") == "local" and str(a0.get("ty", "")).startswith("&mut"):
-                    w.add(a0.get("id"))
+                    w.add((a0.get("id"), ()))
+            if str(x.get("recv_adj_ty", "")).startswith("&mut") and x.get("args"):
+                p_ = _place(x["args"][0])
+                w |= {p_} if p_ is not None else {(i, ()) for (i, _) in _roots(x["args"][0])}
     return w
 
 
@@ -845,9 +901,9 @@ def subst_int_lets(root):
             ok = True
             for j, t in enumerate(rest[:users[-1] + 1]):
                 w = _writes(t)
-                if not (w & roots):
+                if not _overlap(w, roots):
                     continue
-                if j in users and isinstance(t, dict) and t.get("k") in ("assign", "assignop") and not (_writes(t["r"]) & roots) \
+                if j in users and isinstance(t, dict) and t.get("k") in ("assign", "assignop") and not _overlap(_writes(t["r"]), roots) \
                         and not any(x.get("k") in ("call",) and not x.get("ctor") for x in all_nodes(t)) and j == users[-1]:
                     continue      # the statement's own store happens after its operands were read
                 ok = False
@@ -858,6 +914,8 @@ def subst_int_lets(root):
             def sub(x, i=i, init=init):
                 if x.get("k") == "local" and x.get("id") == i:
                     r = copy.deepcopy(init)
+                    for y in all_nodes(r):       # every use carries a copy of one source expression (one panic site, not several)
+                        y.setdefault("copy_of", i)
                     return r
                 return x
             new_rest = [map_tree(t, sub) for t in rest]
@@ -1004,7 +1062,7 @@ def _assign_op(n):
 
 def _strip(n):
     if isinstance(n, dict):
-        return {k: _strip(v) for k, v in n.items() if k not in ("ln", "ty", "mac", "inl", "norm", "col")}
+        return {k: _strip(v) for k, v in n.items() if k not in ("ln", "ty", "mac", "inl", "norm", "col", "copy_of")}
     if isinstance(n, list):
         return [_strip(x) for x in n]
     return n
